@@ -13,33 +13,34 @@ import (
 
 // RunCfg: per-harness bounds and modes.
 type RunCfg struct {
-	Name       string         `json:"name"`
-	Func       string         `json:"func"` // "pkgpath.FuncName"
-	Mode       string         `json:"mode"` // "canonical" | "explore"
-	Preempt    int            `json:"preempt"`
-	Unwind     int            `json:"unwind"`
-	MaxSteps   int64          `json:"max_steps"`
-	MaxPaths   int            `json:"max_paths"`
-	MaxDepth   int            `json:"max_depth"`
-	TimeoutS   int            `json:"timeout_s"`
-	Params     map[string]int `json:"params"`
-	IntMode    bool           `json:"int_mode"`
-	Race       bool           `json:"race"`
-	Ledger     bool           `json:"ledger"`
-	PoolAny    bool           `json:"pool_any"`
-	TimerRace  bool           `json:"timer_race"`
-	Shards     int            `json:"shards"`
-	ShardDepth int            `json:"shard_depth"`
-	SymRand    bool           `json:"sym_rand"`
-	OpaqueMake bool           `json:"opaque_make"`
-	Reach      []string       `json:"reach"`       // markers that must be reached
-	ExpectViol []string       `json:"expect_viol"` // labels (prefix) that must be violated (twins)
-	Sequential bool           `json:"sequential"`  // eligible for native replay
-	Notes      string         `json:"notes"`
-	ConcMax    int            `json:"conc_max"` // max values when concretizing
-	Twin       bool           `json:"twin"`
-	QueryMs    int            `json:"query_ms"`
-	Group      string         `json:"group"`
+	Name        string         `json:"name"`
+	Func        string         `json:"func"` // "pkgpath.FuncName"
+	Mode        string         `json:"mode"` // "canonical" | "explore"
+	Preempt     int            `json:"preempt"`
+	Unwind      int            `json:"unwind"`
+	MaxSteps    int64          `json:"max_steps"`
+	MaxPaths    int            `json:"max_paths"`
+	MaxDepth    int            `json:"max_depth"`
+	TimeoutS    int            `json:"timeout_s"`
+	Params      map[string]int `json:"params"`
+	IntMode     bool           `json:"int_mode"`
+	Race        bool           `json:"race"`
+	Ledger      bool           `json:"ledger"`
+	PoolAny     bool           `json:"pool_any"`
+	TimerRace   bool           `json:"timer_race"`
+	SwitchBound int            `json:"switch_bound"`
+	Shards      int            `json:"shards"`
+	ShardDepth  int            `json:"shard_depth"`
+	SymRand     bool           `json:"sym_rand"`
+	OpaqueMake  bool           `json:"opaque_make"`
+	Reach       []string       `json:"reach"`       // markers that must be reached
+	ExpectViol  []string       `json:"expect_viol"` // labels (prefix) that must be violated (twins)
+	Sequential  bool           `json:"sequential"`  // eligible for native replay
+	Notes       string         `json:"notes"`
+	ConcMax     int            `json:"conc_max"` // max values when concretizing
+	Twin        bool           `json:"twin"`
+	QueryMs     int            `json:"query_ms"`
+	Group       string         `json:"group"`
 }
 
 type fnInfo struct {
@@ -142,6 +143,7 @@ type VM struct {
 	nameCtr   map[string]int
 	poolSeq   int
 	noPreempt int
+	switches  int
 }
 
 type inputRec struct {
